@@ -175,3 +175,190 @@ Proof.
 Qed.
 Theorem artefacts_consist_of_artefact_vertices m g : In g (artefacts m) -> g <> [] /\ forall v, In v g -> In v (get_artifacts m).
 Proof. unfold artefacts. apply group_spec. Qed.
+
+(* ------------------------------------------------------------------ after the contraction no cell names an artefact vertex *)
+Definition cyc (m : mesh) (c : Z) : list Z := aget [] c (mcells m).
+Definition clean (u : Z) (m : mesh) : Prop := forall c, ~ In u (cyc m c).
+Definition registered (u : Z) (m : mesh) : Prop := forall c, In u (cyc m c) -> In c (aget [] u (ownC m)).
+Definition cycles_nodup (m : mesh) : Prop := forall c, NoDup (cyc m c).
+
+Lemma aget_aset_other {A} (d : A) k k' v l : k' <> k -> aget d k' (aset k v l) = aget d k' l.
+Proof.
+  intros Hne. unfold aset, aget, ahas. destruct (existsb (fun kv => Z.eqb (fst kv) k) l).
+  - induction l as [|[k0 v0] l IH]; [reflexivity|]. cbn [map find fst].
+    destruct (Z.eqb_spec k0 k) as [-> | H0]; cbn [fst].
+    + destruct (Z.eqb_spec k k'); [congruence | exact IH].
+    + destruct (Z.eqb k0 k'); [reflexivity | exact IH].
+  - induction l as [|[k0 v0] l IH]; cbn [app find fst].
+    + destruct (Z.eqb_spec k k'); [congruence | reflexivity].
+    + destruct (Z.eqb k0 k'); [reflexivity | exact IH].
+Qed.
+Lemma remove1_absent x l : ~ In x l -> remove1 x l = l.
+Proof. induction l as [|z l IH]; intros H; [reflexivity|]. cbn [remove1]. destruct (Z.eqb_spec x z) as [-> | ?]; [exfalso; apply H; left; reflexivity|]. f_equal. apply IH. intros H'. apply H. right. exact H'. Qed.
+Lemma replace1_absent x y l : ~ In x l -> replace1 x y l = l.
+Proof. induction l as [|z l IH]; intros H; [reflexivity|]. cbn [replace1]. destruct (Z.eqb_spec x z) as [-> | ?]; [exfalso; apply H; left; reflexivity|]. f_equal. apply IH. intros H'. apply H. right. exact H'. Qed.
+
+Lemma ric_other u new m c c' : c' <> c -> cyc (replace_in_cell u new m c) c' = cyc m c'.
+Proof. intros H. unfold cyc, replace_in_cell. destruct (memZ new _); cbn [mcells]; apply aget_aset_other; exact H. Qed.
+Lemma ric_ownC u new m c w : w <> new -> aget [] w (ownC (replace_in_cell u new m c)) = aget [] w (ownC m).
+Proof. intros H. unfold replace_in_cell. destruct (memZ new _); cbn [ownC]; [reflexivity | apply aget_aset_other; exact H]. Qed.
+(* the processed cell: u is gone, membership of every vertex other than u and new is unchanged, no repetition appears *)
+Lemma ric_same u new m c : u <> new -> NoDup (cyc m c) ->
+  ~ In u (cyc (replace_in_cell u new m c) c) /\ NoDup (cyc (replace_in_cell u new m c) c) /\
+  (forall w, w <> u -> w <> new -> (In w (cyc (replace_in_cell u new m c) c) <-> In w (cyc m c))).
+Proof.
+  intros Hne Hnd. destruct (in_dec Z.eq_dec u (cyc m c)) as [Hin | Hout].
+  - destruct (replace_in_cell_cycle u new m c Hnd Hin Hne) as (H1 & _ & H3 & H4 & _). fold (cyc m c) in H4. fold (cyc (replace_in_cell u new m c) c) in *.
+    split; [exact H1|]. split; [exact H3|]. intros w Hw1 Hw2. rewrite H4. intuition.
+  - assert (E : cyc (replace_in_cell u new m c) c = cyc m c).
+    { unfold cyc, replace_in_cell. fold (cyc m c). destruct (memZ new (cyc m c)); cbn [mcells]; rewrite aget_aset_same; [apply remove1_absent | apply replace1_absent]; exact Hout. }
+    rewrite E. split; [exact Hout|]. split; [exact Hnd|]. intros; reflexivity.
+Qed.
+
+Section FoldCells.
+  Variables (u new : Z).
+  Hypothesis Hne : u <> new.
+  Lemma fold_ric_nodup cs : forall m, cycles_nodup m -> cycles_nodup (fold_left (replace_in_cell u new) cs m).
+  Proof.
+    induction cs as [|c cs IH]; intros m H; cbn [fold_left]; [exact H|]. apply IH. intros c'.
+    destruct (Z.eq_dec c' c) as [-> | Hc]; [apply (ric_same u new m c Hne (H c)) | rewrite ric_other by exact Hc; apply H].
+  Qed.
+  Lemma fold_ric_member cs w : w <> u -> w <> new -> forall m, cycles_nodup m ->
+    forall c, In w (cyc (fold_left (replace_in_cell u new) cs m) c) <-> In w (cyc m c).
+  Proof.
+    intros Hw1 Hw2. induction cs as [|c0 cs IH]; intros m H c; cbn [fold_left]; [reflexivity|].
+    rewrite IH.
+    - destruct (Z.eq_dec c c0) as [-> | Hc]; [apply (ric_same u new m c0 Hne (H c0)); assumption | rewrite ric_other by exact Hc; reflexivity].
+    - intros c'. destruct (Z.eq_dec c' c0) as [-> | Hc]; [apply (ric_same u new m c0 Hne (H c0)) | rewrite ric_other by exact Hc; apply H].
+  Qed.
+  Lemma fold_ric_ownC cs w : w <> new -> forall m, aget [] w (ownC (fold_left (replace_in_cell u new) cs m)) = aget [] w (ownC m).
+  Proof. intros Hw. induction cs as [|c cs IH]; intros m; cbn [fold_left]; [reflexivity|]. rewrite IH. apply ric_ownC. exact Hw. Qed.
+  Lemma fold_ric_removes cs : forall m, cycles_nodup m -> forall c,
+    In u (cyc (fold_left (replace_in_cell u new) cs m) c) -> In u (cyc m c) /\ ~ In c cs.
+  Proof.
+    induction cs as [|c0 cs IH]; intros m H c Hin; cbn [fold_left] in Hin; [split; [exact Hin | intros []]|].
+    assert (H1 : cycles_nodup (replace_in_cell u new m c0)).
+    { intros c'. destruct (Z.eq_dec c' c0) as [-> | Hc]; [apply (ric_same u new m c0 Hne (H c0)) | rewrite ric_other by exact Hc; apply H]. }
+    destruct (IH _ H1 c Hin) as [Hin1 Hnot]. destruct (Z.eq_dec c c0) as [-> | Hc].
+    - exfalso. exact (proj1 (ric_same u new m c0 Hne (H c0)) Hin1).
+    - rewrite ric_other in Hin1 by exact Hc. split; [exact Hin1 | intros [E | E]; [congruence | exact (Hnot E)]].
+  Qed.
+End FoldCells.
+
+(* the mesh-edge steps of a vertex leave cells and ownCells alone *)
+Lemma del_edge_cells_ownC m e : mcells (del_edge m e) = mcells m /\ ownC (del_edge m e) = ownC m.
+Proof. unfold del_edge. destruct (aget (0, 0, false) e (medges m)) as [[a b] x]. split; reflexivity. Qed.
+Lemma replace_end_cells_ownC v new m e : mcells (replace_end v new m e) = mcells m /\ ownC (replace_end v new m e) = ownC m.
+Proof. unfold replace_end. destruct (aget (0, 0, false) e (medges m)) as [[a b] x]. split; reflexivity. Qed.
+Lemma fold_keep {A} (f : mesh -> A -> mesh) : (forall m a, mcells (f m a) = mcells m /\ ownC (f m a) = ownC m) ->
+  forall l m, mcells (fold_left f l m) = mcells m /\ ownC (fold_left f l m) = ownC m.
+Proof. intros H l. induction l as [|a l IH]; intros m; cbn [fold_left]; [split; reflexivity|]. destruct (IH (f m a)) as [E1 E2]. destruct (H m a) as [E3 E4]. split; congruence. Qed.
+
+Lemma t3_vertex_as_fold art new m u : exists m0, mcells m0 = mcells m /\ ownC m0 = ownC m /\
+  t3_vertex art new m u = fold_left (replace_in_cell u new) (aget [] u (ownC m)) m0.
+Proof.
+  unfold t3_vertex. destruct (partition (inside art m) (aget [] u (ownE m))) as [rem rep].
+  set (m1 := fold_left del_edge rem m). set (m2 := fold_left (replace_end u new) rep m1).
+  destruct (fold_keep del_edge del_edge_cells_ownC rem m) as [E1 E2].
+  destruct (fold_keep (replace_end u new) (replace_end_cells_ownC u new) rep m1) as [E3 E4].
+  exists m2. fold m1 in E1, E2. fold m2 in E3, E4. split; [congruence|]. split; [congruence|]. rewrite E4, E2. reflexivity.
+Qed.
+
+Lemma cyc_ext m m' : mcells m' = mcells m -> forall c, cyc m' c = cyc m c.
+Proof. intros E c. unfold cyc. rewrite E. reflexivity. Qed.
+
+Theorem t3_vertex_invariant art new m u (done todo : list Z) : u <> new -> ~ In new done -> ~ In new todo ->
+  cycles_nodup m -> (forall d, In d done -> clean d m) -> registered u m -> (forall t, In t todo -> registered t m) ->
+  let m' := t3_vertex art new m u in
+  cycles_nodup m' /\ clean u m' /\ (forall d, In d done -> clean d m') /\ (forall t, In t todo -> registered t m').
+Proof.
+  intros Hne Hnd Hnt Hno Hdone Hreg Htodo m'. subst m'.
+  destruct (t3_vertex_as_fold art new m u) as (m0 & Ec & Eo & ->).
+  assert (Hno0 : cycles_nodup m0) by (intros c; rewrite (cyc_ext m m0 Ec); apply Hno).
+  split; [apply fold_ric_nodup; assumption|].
+  split.
+  - intros c Hin. destruct (fold_ric_removes u new Hne _ m0 Hno0 c Hin) as [Hin0 Hnot].
+    rewrite (cyc_ext m m0 Ec) in Hin0. apply Hnot, Hreg, Hin0.
+  - split.
+    + intros d Hd c Hin. destruct (Z.eq_dec d u) as [-> | Hdu].
+      * destruct (fold_ric_removes u new Hne _ m0 Hno0 c Hin) as [Hin0 _]. rewrite (cyc_ext m m0 Ec) in Hin0. exact (Hdone u Hd c Hin0).
+      * assert (Hdn : d <> new) by (intros ->; exact (Hnd Hd)).
+        rewrite (fold_ric_member u new Hne _ d Hdu Hdn m0 Hno0), (cyc_ext m m0 Ec) in Hin. exact (Hdone d Hd c Hin).
+    + intros t Ht c Hin. assert (Htn : t <> new) by (intros ->; exact (Hnt Ht)).
+      rewrite fold_ric_ownC by exact Htn. rewrite Eo.
+      destruct (Z.eq_dec t u) as [-> | Htu].
+      * destruct (fold_ric_removes u new Hne _ m0 Hno0 c Hin) as [Hin0 _]. rewrite (cyc_ext m m0 Ec) in Hin0. apply Hreg, Hin0.
+      * rewrite (fold_ric_member u new Hne _ t Htu Htn m0 Hno0), (cyc_ext m m0 Ec) in Hin. apply (Htodo t Ht), Hin.
+Qed.
+
+Lemma fold_t3_vertex art new : forall todo done m, ~ In new done -> ~ In new todo ->
+  cycles_nodup m -> (forall d, In d done -> clean d m) -> (forall t, In t todo -> registered t m) ->
+  let m' := fold_left (t3_vertex art new) todo m in
+  cycles_nodup m' /\ forall d, In d (done ++ todo) -> clean d m'.
+Proof.
+  induction todo as [|u todo IH]; intros done m Hnd Hnt Hno Hdone Htodo; cbn [fold_left].
+  - rewrite app_nil_r. split; assumption.
+  - assert (Hun : u <> new) by (intros ->; apply Hnt; left; reflexivity).
+    assert (Hnt' : ~ In new todo) by (intros H; apply Hnt; right; exact H).
+    destruct (t3_vertex_invariant art new m u done todo Hun Hnd Hnt' Hno Hdone (Htodo u (or_introl eq_refl)) (fun t Ht => Htodo t (or_intror Ht)))
+      as (H1 & H2 & H3 & H4).
+    destruct (IH (done ++ [u]) (t3_vertex art new m u)) as [G1 G2]; try assumption.
+    + intros H. apply in_app_or in H. destruct H as [H | [E | []]]; [exact (Hnd H) | congruence].
+    + intros d Hd. apply in_app_or in Hd. destruct Hd as [Hd | [<- | []]]; [apply H3, Hd | exact H2].
+    + split; [exact G1|]. intros d Hd. apply G2. rewrite <- app_assoc. exact Hd.
+Qed.
+
+Lemma drop_vertex_mcells m v : mcells (drop_vertex m v) = mcells m.
+Proof. unfold drop_vertex. destruct (Nat.eqb _ _); reflexivity. Qed.
+Lemma fold_drop_mcells art : forall m, mcells (fold_left drop_vertex art m) = mcells m.
+Proof. induction art as [|v art IH]; intros m; cbn [fold_left]; [reflexivity|]. rewrite IH. apply drop_vertex_mcells. Qed.
+
+Lemma find_app' {A} (f : A -> bool) (l1 l2 : list A) : find f (l1 ++ l2) = match find f l1 with Some x => Some x | None => find f l2 end.
+Proof. induction l1 as [|x l1 IH]; cbn [app find]; [reflexivity|]. destruct (f x); [reflexivity | exact IH]. Qed.
+
+(* In a mesh whose cell cycles repeat no vertex and in which every artefact vertex lists the cells it occurs in, the contraction leaves no
+   artefact vertex in any cell cycle - the cells name only vertices that survive - and no cycle repeats a vertex afterwards. *)
+Theorem t3_removes_the_artefact_from_every_cell m art :
+  (forall v, In v art -> In v (vids m)) -> cycles_nodup m -> (forall v, In v art -> registered v m) ->
+  cycles_nodup (t3 m art) /\ forall v, In v art -> clean v (t3 m art).
+Proof.
+  intros Hv Hno Hreg. unfold t3.
+  set (m1 := mkM (vids m ++ [new_vid m]) (ownE m ++ [(new_vid m, [])]) (ownC m ++ [(new_vid m, [])]) (medges m) (mcells m)).
+  assert (Hnew : ~ In (new_vid m) art) by (intros H; exact (new_vid_fresh m (Hv _ H))).
+  assert (Hno1 : cycles_nodup m1) by exact Hno.
+  assert (Hreg1 : forall t, In t art -> registered t m1).
+  { intros t Ht c Hin. specialize (Hreg t Ht c Hin). unfold m1. cbn [ownC].
+    assert (Htn : t <> new_vid m) by (intros ->; exact (Hnew Ht)).
+    unfold aget in *. rewrite find_app'.
+    destruct (find (fun kv => Z.eqb (fst kv) t) (ownC m)) as [kv|] eqn:E; [exact Hreg | destruct Hreg]. }
+  destruct (fold_t3_vertex art (new_vid m) art [] m1) as [G1 G2]; try assumption; [intros [] | intros d [] |].
+  split.
+  - intros c. unfold cyc. rewrite fold_drop_mcells. apply G1.
+  - intros v Hin c. unfold cyc. rewrite fold_drop_mcells. apply (G2 v Hin c).
+Qed.
+
+Lemma nodupb_NoDup l : nodupb l = true -> NoDup l.
+Proof. induction l as [|x l IH]; intros H; [constructor|]. cbn [nodupb] in H. apply andb_true_iff in H. destruct H as [H1 H2].
+  constructor; [rewrite <- memZ_iff; intros E; rewrite E in H1; discriminate | apply IH, H2]. Qed.
+Lemma aget_in {A} (d : A) k l : (exists v, In (k, v) l /\ aget d k l = v) \/ aget d k l = d.
+Proof.
+  unfold aget. destruct (find (fun kv => Z.eqb (fst kv) k) l) as [[k' v]|] eqn:E; [left | right; reflexivity].
+  apply find_some in E. destruct E as [Hin Hk]. cbn [fst] in Hk. apply Z.eqb_eq in Hk. subst k'. exists v. split; [exact Hin | reflexivity].
+Qed.
+Theorem t3_hyps_sound m art : t3_hyps m art = true ->
+  (forall v, In v art -> In v (vids m)) /\ cycles_nodup m /\ (forall v, In v art -> registered v m).
+Proof.
+  unfold t3_hyps. rewrite !andb_true_iff, !forallb_forall. intros [[H1 H2] H3]. split; [|split].
+  - intros v Hv. apply memZ_iff, H1, Hv.
+  - intros c. unfold cyc. destruct (aget_in (@nil Z) c (mcells m)) as [[cy [Hin ->]] | ->]; [apply nodupb_NoDup, (H2 (c, cy) Hin) | constructor].
+  - intros v Hv c Hin. unfold cyc in Hin. destruct (aget_in (@nil Z) c (mcells m)) as [[cy [Hc E]] | E]; rewrite E in Hin; [|destruct Hin].
+    specialize (H3 v Hv). rewrite forallb_forall in H3. specialize (H3 (c, cy) Hc). cbn [fst snd] in H3.
+    apply orb_true_iff in H3. destruct H3 as [H3 | H3]; [|apply memZ_iff, H3].
+    apply negb_true_iff in H3. apply memZ_iff in Hin. congruence.
+Qed.
+Theorem t3_leaves_no_artefact_vertex_in_a_cell m art : t3_hyps m art = true ->
+  (forall c, NoDup (aget [] c (mcells (t3 m art)))) /\ forall v c, In v art -> ~ In v (aget [] c (mcells (t3 m art))).
+Proof.
+  intros H. destruct (t3_hyps_sound m art H) as (H1 & H2 & H3).
+  destruct (t3_removes_the_artefact_from_every_cell m art H1 H2 H3) as [G1 G2]. split; [exact G1 | intros v c Hv; exact (G2 v Hv c)].
+Qed.
